@@ -161,6 +161,35 @@ def tolerance_keywords(ctx):
             ctx.count("tolerance_keywords")
 
 
+def tight_tolerances_on_a_coarse_grid(ctx):
+    """tolerances tighter than the default, requested on a grid so coarse that the integrator needs more than its first
+    allowance of steps per interval: the rows are as accurate as on a fine grid (Lotka-Volterra, reference DOP853 at 1e-13)."""
+    from bioscrape.simulator import py_simulate_model
+    from scipy.integrate import solve_ivp
+    from modelspec import independent_rhs
+    spec = {"species": ["X", "Y"], "reactions": [
+        {"reactants": ["X"], "products": ["X", "X"], "prop": {"type": "massaction", "k": "a"}},
+        {"reactants": ["X", "Y"], "products": ["Y", "Y"], "prop": {"type": "massaction", "k": "b"}},
+        {"reactants": ["Y"], "products": [], "prop": {"type": "massaction", "k": "c"}}],
+        "params": {"a": 1.0, "b": 0.1, "c": 1.5}, "ic": {"X": 10.0, "Y": 5.0}}
+    for T in (np.arange(0, 30.05, 0.05), np.array([0.0, 7.0, 19.0, 30.0]), np.array([0.0, 40.0, 90.0, 150.0])):
+        case = {"spec": spec, "times": T.tolist(), "rtol": 1e-12, "atol": 1e-12}
+        ctx.begin_case(case)
+        M = build_model(spec)
+        sl = M.get_species_list()
+        x0 = np.array([float(spec["ic"][s_]) for s_ in sl])
+        sol = solve_ivp(independent_rhs(spec, sl), (0.0, float(T[-1])), x0, method="DOP853", t_eval=T, rtol=1e-13, atol=1e-13)
+        with warnings.catch_warnings():
+            warnings.simplefilter("ignore")
+            rows = np.array(py_simulate_model(T.copy(), Model=M, stochastic=False, return_dataframe=False, rtol=1e-12, atol=1e-12).py_get_result())
+        ctx.evaluated()
+        err = float(np.max(np.abs(rows - sol.y.T) / (1 + np.abs(sol.y.T)))) if rows.shape == sol.y.T.shape and not np.any(np.isnan(rows)) else float("inf")
+        if not sol.success or err > 3e-8:
+            ctx.violation("det/accuracy/tight-tolerances", "rtol = atol = 1e-12 on a grid of %d points: largest relative error %.3g (3e-8 allowed; a fine grid gives 1e-9)" % (len(T), err), case)
+            return
+        ctx.count("tight_tolerance_runs")
+
+
 def long_intervals(ctx):
     """requested time points far apart: a fast oscillation (closed orbit, 40 rad per time unit) asked for at three points
     spanning thousands of periods.  The integrator needs tens to hundreds of thousands of internal steps per interval,
@@ -311,6 +340,7 @@ def run(ctx):
     pulse_with_hmax(ctx)
     tolerance_keywords(ctx)
     long_intervals(ctx)
+    tight_tolerances_on_a_coarse_grid(ctx)
     for i in range(n):
         one(ctx, ctx.rng, linear=(i % 2 == 0))
     ctx.count("largest_relative_drift_of_a_conserved_combination_x1e15", int(CONS_SEEN[0] * 1e15))
